@@ -5,19 +5,24 @@ PID = "C13"
 MODULES = ["Prelude", "C13_Model", "C13_Spec", "C13_Check"]
 PROPS_MODULE = "C13_Properties C19_Properties"
 THEOREMS = ["C13_range", "C13_both_sides", "C13_guard", "C13_serve_only_leader", "C13_history",
+            "C13_gateway_follows_announcement",
             "C13_store_shard_filter"]  # the last one is proved over the API-backed store model of C19
 EVAL = "C13_Check.eval"
-CLAUSES = ["agree", "range", "both_sides", "guard", "serve", "names_leader", "drop", "own_shard"]
+CLAUSES = ["agree", "range", "both_sides", "guard", "serve", "names_leader", "drop", "own_shard", "addressed"]
 RULE = ("hash cases: distinct (name bytes, N) with N>=1; history cases: distinct op lists containing at least one "
-        "leadership change and one allocate/acquire/cluster-update call issued while NOT leader of the upstream's shard")
+        "leadership change and one allocate/acquire/cluster-update call issued while NOT leader of the upstream's shard; "
+        "gateway cases: distinct op lists with at least two announcements, one of them not listing every shard, and a "
+        "ClientFor call answered with a server")
 TRUSTED_BASE = [
     "Coq 8.16.1 kernel + vm_compute (case files); no native_compute, no extraction",
     "hand-written model C13_Model.v tied to /repo by the differential run of this check (Go harness harness/c13, overlay exports)",
     "modelled not verified: hash/fnv, sync.Map, client-go leaderelection (only its three callbacks are driven), local store",
+    "gateway cases: the real clientSets.sync/ClientFor against an httptest limiter server serving scripted server-info answers; the periodic goroutines (sync every 2 s, heartbeat, client cache clean-up) are not started",
 ]
 HARNESS_CHUNK = 400
 ASSUMPTIONS = [
     "leadership changes reach the limiter only through the elector callbacks OnNewLeader/OnStartedLeading/OnStoppedLeading",
+    "gateway cases: every announced leader address is non-empty (hypothesis ann_ok of C13_gateway_follows_announcement); shard counts 0..8",
     "history cases use the local store, plus a few with the API-backed store in which every shard is gained once (so Load sees an empty API); what the API-backed store persists and reloads is C19's subject",
 ]
 
@@ -49,7 +54,49 @@ def corpus():
         {"op": "checkrace", "shard": 0}, {"op": "update", "u": B(b"a"), "i": B(b"gw2")}, {"op": "check"},
         {"op": "checkrace", "shard": 1}, {"op": "check"}, {"op": "start", "shard": 0},
         {"op": "update", "u": B(b"a"), "i": B(b"gw2")}]})
+    # gateway side: an announcement with a gap (shard 1 unknown), steady state, fail-over window (shard 0 dropped)
+    def ep(sh, l):
+        return {"shard": sh, "leader": B(l)}
+    probes = [{"op": "client", "u": B(nm)} for nm in (b"a", b"b", b"c", b"kube-1", b"kube-2")]
+    cs.append({"kind": "gw", "gw": probes[:2] + [{"op": "sync", "n": 3, "eps": [ep(0, b"http://10.0.0.1:8080"), ep(2, b"http://10.0.0.3:8080")]}]
+               + probes + [{"op": "sync", "n": 3, "eps": [ep(0, b"http://10.0.0.1:8080"), ep(1, b"http://10.0.0.2:8080"), ep(2, b"http://10.0.0.3:8080")]}]
+               + probes + [{"op": "syncfail"}] + probes[:3]
+               + [{"op": "sync", "n": 3, "eps": [ep(1, b"http://10.0.0.2:8080"), ep(2, b"http://10.0.0.3:8080")]}] + probes
+               + [{"op": "sync", "n": 3, "eps": [ep(2, b"http://10.0.0.3:8080"), ep(0, b"http://10.0.0.9:8080"), ep(1, b"http://10.0.0.2:8080")]}] + probes
+               + [{"op": "sync", "n": 2, "eps": [ep(1, b"http://10.0.0.7:8080")]}] + probes
+               + [{"op": "sync", "n": 0, "eps": []}] + probes[:2]})
     return cs
+
+
+def gen_gw(rng):
+    """announcements with gaps, in any order, with repeated shards, changing shard counts, failing syncs"""
+    servers = [b"http://10.0.0.%d:8080" % i for i in range(1, 7)] + [b"https://lim-%d.example:443" % i for i in range(3)]
+    ups = rng.sample(NAMES[:7] + [b"a.b", b"a.b.c"], rng.randint(2, 5))
+    n = rng.choice([1, 2, 3, 3, 4, 5, 8])
+    ops = []
+    for _ in range(rng.randint(2, 7)):
+        k = rng.below(20)
+        if k < 2:
+            ops.append({"op": "syncfail"})
+        else:
+            if k < 5:
+                n = rng.choice([0, 1, 2, 3, 4, 5, 8])
+            shards = list(range(n))
+            m = rng.below(8)
+            if m < 4 and shards:       # a gap: some shards have no leader record
+                shards = rng.sample(shards, rng.randint(0, len(shards) - 1)) if len(shards) > 1 else []
+            if m in (1, 5):            # not in shard order
+                shards = rng.shuffle(list(shards))
+            else:
+                shards = sorted(shards)
+            if m == 6 and shards:      # a shard listed twice
+                shards = shards + [rng.choice(shards)]
+            if m == 7:                 # a record for a shard beyond the count
+                shards = shards + [n + rng.below(3)]
+            ops.append({"op": "sync", "n": n, "eps": [{"shard": sh, "leader": B(rng.choice(servers))} for sh in shards]})
+        for u in rng.sample(ups, rng.randint(1, len(ups))):
+            ops.append({"op": "client", "u": B(u)})
+    return {"kind": "gw", "gw": ops}
 
 
 def rand_name(rng):
@@ -134,6 +181,8 @@ def generate(rng, tier, scale=1):
         cs.append(gen_hist(rng))
     for _ in range((4 if tier == "quick" else 30) * scale):   # each costs ~2 s (the limiter's own retry sleep)
         cs.append(gen_k8s_hist(rng))
+    for _ in range((150 if tier == "quick" else 2000) * scale):
+        cs.append(gen_gw(rng))
     return cs
 
 
@@ -170,7 +219,26 @@ def coq_snap(snap):
     return clist([cpair(cZ(s["shard"]), clist([cpair(cstr(p["u"]), cstr(p["c"])) for p in s["conds"]])) for s in snap])
 
 
+def coq_gwop(o):
+    if o["op"] == "sync":
+        return "(GSync %s %s)" % (cZ(o["n"]), clist([cpair(cZ(e["shard"]), cstr(e["leader"])) for e in o["eps"]]))
+    if o["op"] == "syncfail":
+        return "GSyncFail"
+    return "(GClientFor %s)" % cstr(o["u"])
+
+
+def coq_gwres(s):
+    if s["res"] == "to":
+        return "(GTo %s)" % cstr(s["server"])
+    return {"nil": "GNil", "err": "GErr"}[s["res"]]
+
+
 def coq_case(case, obs):
+    if case["kind"] == "gw":
+        steps = obs.get("steps", [])
+        if len(steps) != len(case["gw"]):
+            return '(CHash "" 1 None None)'
+        return "(CGw %s)" % clist([cpair(coq_gwop(o), coq_gwres(s)) for o, s in zip(case["gw"], steps)])
     if case["kind"] == "hash":
         if "panic" in obs:
             return "(CHash %s %s None None)" % (cstr(case["name"]), cZ(case["n"]))
@@ -189,6 +257,11 @@ def coq_case(case, obs):
 
 
 def nontrivial_key(case, obs):
+    if case["kind"] == "gw":
+        syncs = [o for o in case["gw"] if o["op"] == "sync"]
+        gap = any(len({e["shard"] for e in o["eps"]}) < o["n"] for o in syncs)
+        served = any(s["res"] == "to" for s in obs.get("steps", []))
+        return ("g", repr(case["gw"])) if len(syncs) >= 2 and gap and served else None
     if case["kind"] == "hash":
         return ("h", bytes(case["name"]), case["n"]) if case["n"] >= 1 else None
     steps = obs.get("steps", [])
@@ -201,6 +274,15 @@ def nontrivial_key(case, obs):
 
 
 def stats(case, obs):
+    if case["kind"] == "gw":
+        labs = ["gw:len<=%d" % (10 * ((len(case["gw"]) + 9) // 10))]
+        for o, s in zip(case["gw"], obs.get("steps", [])):
+            if o["op"] == "sync":
+                k = len({e["shard"] for e in o["eps"]})
+                labs.append("gw:sync:%s" % ("n=0" if o["n"] == 0 else "full" if k >= o["n"] else "gap"))
+            else:
+                labs.append("gw:%s->%s" % (o["op"], s["res"]))
+        return labs
     if case["kind"] == "hash":
         n = case["n"]
         return ["hash:n=%s" % (n if n in (0, 1, 2, 3, 7, 16, 64, 2 ** 31) else ("big" if n > 64 else "neg"))]
@@ -211,6 +293,11 @@ def stats(case, obs):
 
 
 def shrink(case):
+    if case["kind"] == "gw":
+        ops = case["gw"]
+        for i in range(len(ops)):
+            yield dict(case, gw=ops[:i] + ops[i + 1:])
+        return
     if case["kind"] != "hist":
         return
     ops = case["ops"]
@@ -219,6 +306,11 @@ def shrink(case):
 
 
 def neighbours(case, rng):
+    if case["kind"] == "gw":
+        ops = case["gw"]
+        for i in range(len(ops)):
+            yield dict(case, gw=ops[:i] + ops[i + 1:])
+        return
     if case["kind"] != "hist":
         for d in (-1, 1):
             yield dict(case, n=max(1, case["n"] + d))
